@@ -50,7 +50,8 @@ class StepRecord:
             self.dAdt = np.zeros(len(em.edges))
         fx = ops.fixed_sites if ops.fix_psi else np.array([], dtype=np.int64)
         self.fixed = np.array(fx, dtype=np.int64)
-        self.gamma, self.u = float(solver.gamma), float(solver.u)
+        # what the user configured (the layer's values), not the solver's own copy of them
+        self.gamma, self.u = float(solver.device.layer.gamma), float(solver.device.layer.u)
         tp = solver.options.terminal_psi
         self.repin = complex(tp) if tp else None
         self.rhs = (ops.divergence @ (self.Js - self.dAdt)) - (ops.mu_boundary_laplacian @ self.muB)
